@@ -43,6 +43,7 @@ def required_cells(tier):
     req["radius:Fraction"] = 200
     req["history:rejected-builder-call-first"] = 300
     req["radius:int"] = 200
+    req["pose:minus1-minus2-slab-cube"] = 50
     req["radius:nudged-to-hash-rounding-boundary"] = 300
     for n in (3, 4, 5, 24):
         req["n:%d" % n] = 5
@@ -101,6 +102,20 @@ def cases(rng, budget, widx, nworkers, tier):
             s = rng.choice((0.5, 1.0, 1.0, 2.0))
             yield {"b": b, "c": c, "vs": [[x * s for x in u], [float(x) for x in v]], "reject_first": rng.random() < 0.3}
         elif b == "Parallelepiped":
+            if rng.random() < 0.12:
+                # the unit cube (or a unit-square based box) between the coordinates -2 and -1 on one axis, [0,1] on the
+                # others: its two end faces hash alike (CPython: hash(-1.0) == hash(-2.0))
+                ax = rng.randrange(3)
+                base = [0.0, 0.0, 0.0]
+                e = [[1.0, 0.0, 0.0], [0.0, 1.0, 0.0], [0.0, 0.0, 1.0]]
+                if rng.random() < 0.5:
+                    base[ax] = -2.0
+                else:
+                    base[ax] = -1.0
+                    e[ax][ax] = -1.0
+                rng.shuffle(e)
+                yield {"b": b, "c": base, "vs": e, "reject_first": False, "slab": True}
+                continue
             u, v, w = rng.sample(dirs2, 3)
             if K.det3(u, v, w) == 0:
                 continue
@@ -212,6 +227,8 @@ def judge(case):
                         getattr(G, fnm)(G.Point(*c), 1.5, G.Vector(1, 2, 2), 2)
                 except Exception:
                     pass
+        if case.get("slab"):
+            mu.cell("pose:minus1-minus2-slab-cube")
         vs = [G.Vector(*v) for v in case["vs"]]
         fn = getattr(G, b)
         obj, exc, imp = M.call(fn, centre, *vs)
